@@ -21,9 +21,13 @@ def run_impl(srcs, mode="exec", workers=16):
                 results[pending[k]] = json.loads(l)
             if len(lines) >= len(pending):
                 break
+            if lines and results[pending[len(lines) - 1]].get("hang"):
+                pending = pending[len(lines):]      # the worker stops after reporting a hang: go on with the rest
+                continue
             bad = pending[len(lines)]      # the case the worker died on
-            if results[bad] is None or not results[bad].get("hang"):
-                results[bad] = {"out": "", "err": "ProcessCrash", "crash": (p.stderr or "")[-600:].replace("\n", " | "), "rc": p.returncode}
+            err_text = p.stderr or ""
+            m = __import__("re").search(r"(fatal error: [^\n]*|panic: [^\n]*)", err_text)
+            results[bad] = {"out": "", "err": "ProcessCrash", "crash": ((m.group(1) + " | ") if m else "") + err_text[-400:].replace("\n", " | "), "rc": p.returncode}
             pending = pending[len(lines) + 1:]
     chunks = [list(range(len(srcs)))[i::workers] for i in range(workers)]
     with concurrent.futures.ThreadPoolExecutor(workers) as ex:
